@@ -314,6 +314,10 @@ type remote struct {
 	bodySh   string
 	headerSh string
 	stop     chan struct{}
+	// fast sync: receipts and state data of an honest server, and how replies to them are bent
+	srv       *aqua.VerifServer
+	receiptSh string
+	stateSh   string
 }
 
 func (rm *remote) headersFor(origin rlp.RawValue, amount, skip uint64, reverse bool) []*types.Header {
@@ -443,9 +447,55 @@ func (rm *remote) serve() {
 			b, _ := rlp.EncodeToBytes(reply)
 			rm.r.Send(aqua.BlockBodiesMsg, b, 5*time.Second)
 		case aqua.GetReceiptsMsg:
-			rm.r.Send(aqua.ReceiptsMsg, []byte{0xc0}, 5*time.Second)
+			if rm.srv == nil {
+				rm.r.Send(aqua.ReceiptsMsg, []byte{0xc0}, 5*time.Second)
+				continue
+			}
+			var hashes []common.Hash
+			if rlp.DecodeBytes(payload, &hashes) != nil {
+				continue
+			}
+			var honest [][]*types.Receipt
+			for _, h := range hashes {
+				if b := rm.byHash[h]; b != nil {
+					honest = append(honest, rm.srv.Receipts[b.NumberU64()])
+				}
+			}
+			reply := [][]*types.Receipt{}
+			for _, i := range mutateList(rm.receiptSh, len(honest)) {
+				if i < 0 {
+					reply = append(reply, rm.srv.Receipts[rm.top-1])
+				} else {
+					reply = append(reply, honest[i])
+				}
+			}
+			b, _ := rlp.EncodeToBytes(reply)
+			rm.r.Send(aqua.ReceiptsMsg, b, 5*time.Second)
 		case aqua.GetNodeDataMsg:
-			rm.r.Send(aqua.NodeDataMsg, []byte{0xc0}, 5*time.Second)
+			if rm.srv == nil {
+				rm.r.Send(aqua.NodeDataMsg, []byte{0xc0}, 5*time.Second)
+				continue
+			}
+			var hashes []common.Hash
+			if rlp.DecodeBytes(payload, &hashes) != nil {
+				continue
+			}
+			var honest [][]byte
+			for _, h := range hashes {
+				if d, ok := rm.srv.NodeData(h); ok {
+					honest = append(honest, d)
+				}
+			}
+			reply := [][]byte{}
+			for _, i := range mutateList(rm.stateSh, len(honest)) {
+				if i < 0 {
+					reply = append(reply, []byte{0xc5, 0x83, 1, 2, 3, 0x80}) // a blob nobody asked for
+				} else {
+					reply = append(reply, honest[i])
+				}
+			}
+			b, _ := rlp.EncodeToBytes(reply)
+			rm.r.Send(aqua.NodeDataMsg, b, 5*time.Second)
 		}
 	}
 }
@@ -476,6 +526,11 @@ func newScenario(name string, local, ext int, txs int) (*aqua.VerifPM, *remote, 
 	rm.r = r
 	return pm, rm, blocks, receipts
 }
+
+var (
+	baselineTries int
+	retryBaseline bool
+)
 
 func childMain() {
 	only := os.Getenv("VERIF_C17_CASE")
@@ -515,8 +570,17 @@ func childMain() {
 			close(rm.stop)
 			h := pm.LocalHeight()
 			if headerSh == "honest" && bodySh == "honest" && h != 52 {
-				fmt.Printf("BASELINE-FAILED honest sync ended at height %d, want 52\n", h)
-				os.Exit(4)
+				// under heavy machine load the downloader's rtt-based time-outs can drop even an honest
+				// peer: retry before declaring the mock remote broken
+				baselineTries++
+				fmt.Printf("RESULT baseline-retry height=%d\n", h)
+				if baselineTries >= 4 {
+					fmt.Printf("BASELINE-FAILED honest sync ended at height %d, want 52 (4 attempts)\n", h)
+					os.Exit(4)
+				}
+				rm.r.Close()
+				retryBaseline = true
+				return
 			}
 			res := "rejected"
 			if h == 52 {
@@ -529,6 +593,10 @@ func childMain() {
 		})
 	}
 	syncCase("honest", "honest")
+	for retryBaseline {
+		retryBaseline = false
+		syncCase("honest", "honest")
+	}
 	bs := []string{"more", "more-dup", "double", "zero", "fewer", "dup-first", "mismatch"}
 	if thorough || only != "" {
 		// a reply whose FIRST entry does not match is a stale delivery: the downloader neither idles nor
@@ -547,6 +615,83 @@ func childMain() {
 	}
 	for _, sh := range hs {
 		syncCase(sh, "honest")
+	}
+	// --- A2. fast sync (headers, bodies, receipts, state trie nodes) against a server whose
+	// receipt / node-data replies are bent
+	const fastN = 90
+	fastCase := func(receiptSh, stateSh string) {
+		name := fmt.Sprintf("fastsync/receipts=%s/state=%s", receiptSh, stateSh)
+		run(name, func() {
+			pm, srv, err := aqua.VerifNewFastPair(fastN)
+			if err != nil {
+				fmt.Println("BASELINE-FAILED cannot build fast-sync pair:", err)
+				os.Exit(4)
+			}
+			rm := &remote{byNum: map[uint64]*types.Block{}, byHash: map[common.Hash]*types.Block{}, bodySh: "honest", headerSh: "honest",
+				receiptSh: receiptSh, stateSh: stateSh, srv: srv, stop: make(chan struct{}), top: fastN}
+			for _, b := range srv.Blocks {
+				rm.byNum[b.NumberU64()] = b
+				rm.byHash[b.Hash()] = b
+			}
+			r, err := pm.Connect(name, srv.Blocks[fastN].Hash(), srv.TD(fastN))
+			if err != nil {
+				fmt.Println("BASELINE-FAILED cannot connect:", err)
+				os.Exit(4)
+			}
+			rm.r = r
+			go rm.serve()
+			done := rm.r.Sync()
+			select {
+			case <-done:
+			case <-time.After(syncWatchdog):
+				fmt.Println("RESULT stalled-until-disconnect")
+				rm.r.Close()
+				select {
+				case <-done:
+				case <-time.After(60 * time.Second):
+					fmt.Println("HANG " + name)
+				}
+			}
+			close(rm.stop)
+			h, fh := pm.LocalHeight(), pm.FastHeight()
+			if receiptSh == "honest" && stateSh == "honest" && (h != fastN || pm.FastSyncEnabled()) {
+				baselineTries++
+				fmt.Printf("RESULT baseline-retry fast height=%d fastheight=%d\n", h, fh)
+				if baselineTries >= 4 {
+					fmt.Printf("BASELINE-FAILED honest fast sync ended at height %d / fast block %d, want %d\n", h, fh, fastN)
+					os.Exit(4)
+				}
+				rm.r.Close()
+				retryBaseline = true
+				return
+			}
+			res := "rejected"
+			if h == fastN {
+				res = "synced"
+			} else if fh > 0 {
+				res = "partial"
+			}
+			fmt.Printf("RESULT fast-%s height=%d fastheight=%d connected=%v\n", res, h, fh, rm.r.Connected())
+			rm.r.Close()
+		})
+	}
+	fastCase("honest", "honest")
+	for retryBaseline {
+		retryBaseline = false
+		fastCase("honest", "honest")
+	}
+	// quick tier: the over-long replies only (a bent state reply stalls the state sync until the peer
+	// leaves, tens of seconds)
+	rs, ss := []string{"more"}, []string{"more"}
+	if thorough {
+		rs = []string{"more", "more-dup", "double", "zero", "fewer", "dup-first", "mismatch"}
+		ss = []string{"more", "more-dup", "double", "zero", "fewer", "reordered", "mismatch"}
+	}
+	for _, sh := range rs {
+		fastCase(sh, "honest")
+	}
+	for _, sh := range ss {
+		fastCase("honest", sh)
 	}
 	// --- B. responses nobody asked for, on a connected peer without and with a sync in progress
 	run("unsolicited/responses", func() {
